@@ -6,12 +6,13 @@ are required to have no intrinsic size) and `grid_layout` (explicit grid, implic
 placement steps 1.1 to 1.4, implicit tracks, sizing, step 3.5 alignment, step 4 item boxes) for
 grids of empty block items.
 
-The code is mirrored as it is, including:
+The code is mirrored as it is *now*, i.e. after the repairs 0e77b99 (`free_width` of step 3.5 without the
+column gaps), e5d53d3 (sparse `_get_second_placement` starts at track 0 when nothing is occupied), cd18f00
+(sparse "second axis given, first axis span" loop resolves the span from `cursor_first`), c8a4ac7 (`_get_line`
+counts the occurrences of the name), 34cd729 (columns sized from `implicit_x1`), ca85a65 (justify-self uses the
+max-content *content* width), including what is still there:
   * `coord = number - 1` for negative line numbers as well (they are not counted from the end);
   * Python negative indexing / slicing of the track lists (`pyGet?`, `pySlice`);
-  * `max(occupied_tracks or [0]) + 1` in the sparse branch of `_get_second_placement`;
-  * the stale / unbound local `first_i` in the sparse "second axis given, first axis span" loop;
-  * `free_width` of step 3.5 computed without the column gaps;
   * items whose row is negative are never laid out (`skip_row <= y`).
 `itertools.count()` loops run with a bound (`countBound`, the harness installs the same bound in the
 real module); exhausting it is the outcome `err:NonTermination`.  No Mathlib.
@@ -95,13 +96,14 @@ def findName (name : String) : List (List String) → Nat → Option Nat
   | [], _ => none
   | l :: rest, i => if l.contains name then some i else findName name rest (i + 1)
 
-/-- The `for coord, line in enumerate(lines[::step])` loop of `_get_line`:
+/-- The `for coord, line in enumerate(lines[::step])` loop of `_get_line`
+(`if ident in line: number -= step` then `if number == 0: break`):
 returns `(coord, number, broke)`; `coord = none` when the sequence is empty. -/
 def scanNamed (ident : String) (step : Int) : List (List String) → Nat → Int → Option Nat → (Option Nat × Int × Bool)
   | [], _, number, last => (last, number, false)
   | l :: rest, i, number, _ =>
-    if l.contains ident then (some i, number - step, true)
-    else if number == 0 then (some i, number, true)
+    let number := if l.contains ident then number - step else number
+    if number == 0 then (some i, number, true)
     else scanNamed ident step rest (i + 1) number (some i)
 
 /-- `_get_line(line, lines, side)` -/
@@ -258,10 +260,14 @@ def occupiedTracks (firstPlacement : Int × Int) (positions : List Area) (firstF
 
 def listMax0 (l : List Int) : Int := l.foldl max 0
 
-/-- `max(occupied_tracks or [0])` -/
+/-- `max(occupied_tracks)` of a non-empty collection (0 for the empty one, never used then) -/
 def maxOccupied : List Int → Int
   | [] => 0
   | x :: xs => xs.foldl max x
+
+/-- `max(occupied_tracks) + 1 if occupied_tracks else 0`: first track of the sparse search. -/
+def sparseStart (occupied : List Int) : Int :=
+  if occupied.isEmpty then 0 else maxOccupied occupied + 1
 
 def denseSecond (secondStart secondEnd : Place) (lines : List (List String)) (occupied : List Int) :
     Nat → Int → Except GErr (Int × Int)
@@ -292,7 +298,7 @@ def getSecondPlacement (firstPlacement : Int × Int) (secondStart secondEnd : Pl
   let occupied := occupiedTracks firstPlacement positions firstFlowRow
   if dense then denseSecond secondStart secondEnd lines occupied countBound 0
   else
-    let track := maxOccupied occupied + 1
+    let track := sparseStart occupied
     if secondStart == .auto then getPlacement! (lineNo (track + 1)) secondEnd lines
     else sparseSecondSpan secondStart lines track countBound (track + 1)
 
@@ -726,7 +732,6 @@ structure PState where
   cursorFirst : Int
   cursorSecond : Int
   implicitFirst2 : Int
-  firstI : Option Int                  -- the local `first_i` (unbound = none)
 
 def PState.areas (s : PState) : List Area := s.positions.map (·.2)
 
@@ -755,26 +760,18 @@ def denseLocked (firstFlowRow : Bool) (fs fe : Place) (flines : List (List Strin
       denseLocked firstFlowRow fs fe flines secondI secondSize cursorFirst positions fuel (k + 1)
     else pure (fi, fsz)
 
-/-- first-axis placement tried by the sparse "second axis given" loop: from `cursor_first` when
-`first_start` is `auto`, from the *stale* local `first_i` when it is a span. -/
-def sparseFirst (fs fe : Place) (flines : List (List String)) (cf : Int) (firstI : Option Int) :
-    Except GErr (Int × Int) :=
-  if fs == .auto then getPlacement! (lineNo (cf + 1)) fe flines
-  else match firstI with
-    | none => throw (.unboundLocal "grid_layout.first_i")
-    | some old => getPlacement! fs (lineNo (old + 1 + getSpan fs)) flines
-
-/-- sparse, second axis given: `for cursor_first in count(cursor_first)`; `firstI` is the stale local.
+/-- sparse, second axis given: `for cursor_first in count(cursor_first)`, the first axis resolved from
+`cursor_first` (line `cursor_first + 1`, or `cursor_first + 1 + span` as the end line of a span).
 Returns `(cursor_first, first_i, first_size)`. -/
 def sparseLocked (firstFlowRow : Bool) (fs fe : Place) (flines : List (List String))
     (secondI secondSize : Int) (positions : List Area) :
-    Nat → Int → Option Int → Except GErr (Int × Int × Int)
-  | 0, _, _ => throw (.nonTermination "grid_layout.sparse.count")
-  | fuel + 1, cf, firstI => do
-    let (fi, fsz) ← sparseFirst fs fe flines cf firstI
-    if fi < cf then sparseLocked firstFlowRow fs fe flines secondI secondSize positions fuel (cf + 1) (some fi)
+    Nat → Int → Except GErr (Int × Int × Int)
+  | 0, _ => throw (.nonTermination "grid_layout.sparse.count")
+  | fuel + 1, cf => do
+    let (fi, fsz) ← placeAt fs fe flines cf
+    if fi < cf then sparseLocked firstFlowRow fs fe flines secondI secondSize positions fuel (cf + 1)
     else if areaIntersects (mkArea firstFlowRow fi fsz secondI secondSize) positions then
-      sparseLocked firstFlowRow fs fe flines secondI secondSize positions fuel (cf + 1) (some fi)
+      sparseLocked firstFlowRow fs fe flines secondI secondSize positions fuel (cf + 1)
     else pure (cf, fi, fsz)
 
 /-- The inner `for second_i in range(cursor_second, implicit_second_2)` of the free branch.
@@ -818,7 +815,6 @@ structure Placed where
   implicitX2 : Int
   implicitY1 : Int
   implicitY2 : Int
-  implicitSecond1 : Int
   deriving Repr
 
 def lookupArea (positions : List (Nat × Area)) (id : Nat) : Option Area :=
@@ -848,40 +844,38 @@ def step14DenseGiven (ctx : PCtx) (st : PState) (it : GItem) (si ssz : Int) : Ex
   let diff := fi + fsz - st.implicitFirst2
   pure { positions := st.positions ++ [(it.id, mkArea ctx.firstFlowRow fi fsz si ssz)],
          cursorFirst := cursorFirst, cursorSecond := si,
-         implicitFirst2 := if diff > 0 then st.implicitFirst2 + diff else st.implicitFirst2,
-         firstI := some fi }
+         implicitFirst2 := if diff > 0 then st.implicitFirst2 + diff else st.implicitFirst2 }
 
 /-- Step 1.4, dense packing, both axes free. -/
 def step14DenseFree (ctx : PCtx) (st : PState) (it : GItem) : Except GErr PState := do
   let (fs, fe) := itemFirst ctx.flowColumn it
   let (ss, se) := itemSecond ctx.flowColumn it
-  let (a, fsz, cf, cs, if2, fi) ← freeLoop ctx.firstFlowRow fs fe ss se ctx.flines ctx.slines
+  let (a, fsz, cf, cs, if2, _) ← freeLoop ctx.firstFlowRow fs fe ss se ctx.flines ctx.slines
     ctx.implicitSecond1 ctx.implicitSecond2 st.areas whileBound ctx.implicitFirst1 ctx.implicitSecond1
     st.implicitFirst2
   let diff := cf + fsz - 1 - if2
   pure { positions := st.positions ++ [(it.id, a)], cursorFirst := cf, cursorSecond := cs,
-         implicitFirst2 := if diff > 0 then if2 + diff else if2, firstI := some fi }
+         implicitFirst2 := if diff > 0 then if2 + diff else if2 }
 
 /-- Step 1.4, sparse packing, second axis given. -/
 def step14SparseGiven (ctx : PCtx) (st : PState) (it : GItem) (si ssz : Int) : Except GErr PState := do
   let (fs, fe) := itemFirst ctx.flowColumn it
   let cursorFirst := if si < st.cursorSecond then st.cursorFirst + 1 else st.cursorFirst
-  let (cf, fi, fsz) ← sparseLocked ctx.firstFlowRow fs fe ctx.flines si ssz st.areas countBound cursorFirst st.firstI
+  let (cf, fi, fsz) ← sparseLocked ctx.firstFlowRow fs fe ctx.flines si ssz st.areas countBound cursorFirst
   let diff := fi + fsz - st.implicitFirst2
   pure { positions := st.positions ++ [(it.id, mkArea ctx.firstFlowRow fi fsz si ssz)],
          cursorFirst := cf, cursorSecond := si,
-         implicitFirst2 := if diff > 0 then st.implicitFirst2 + diff else st.implicitFirst2,
-         firstI := some fi }
+         implicitFirst2 := if diff > 0 then st.implicitFirst2 + diff else st.implicitFirst2 }
 
 /-- Step 1.4, sparse packing, both axes free. -/
 def step14SparseFree (ctx : PCtx) (st : PState) (it : GItem) : Except GErr PState := do
   let (fs, fe) := itemFirst ctx.flowColumn it
   let (ss, se) := itemSecond ctx.flowColumn it
-  let (a, _, cf, cs, if2, fi) ← freeLoop ctx.firstFlowRow fs fe ss se ctx.flines ctx.slines
+  let (a, _, cf, cs, if2, _) ← freeLoop ctx.firstFlowRow fs fe ss se ctx.flines ctx.slines
     ctx.implicitSecond1 ctx.implicitSecond2 st.areas whileBound st.cursorFirst st.cursorSecond
     st.implicitFirst2
   pure { positions := st.positions ++ [(it.id, a)], cursorFirst := cf, cursorSecond := cs,
-         implicitFirst2 := if2, firstI := some fi }
+         implicitFirst2 := if2 }
 
 /-- Step 1.4 for one of the remaining grid items (the four branches: dense / sparse, second axis
 given / free). -/
@@ -955,16 +949,16 @@ def place (c : GContainer) (rows cols : List TEntry) (nRowsAreas nColsAreas : Na
     implicitFirst1 := min i implicitFirst1
     implicitFirst2 := max (i + size) implicitFirst2
   let ctx := PCtx.mk firstFlowRow c.flowColumn c.dense flines slines implicitFirst1 implicitSecond1 implicitSecond2
-  let st0 := PState.mk positions implicitFirst1 implicitSecond1 implicitFirst2 none
+  let st0 := PState.mk positions implicitFirst1 implicitSecond1 implicitFirst2
   let st ← remaining.foldlM (step14 ctx) st0
   positions := st.positions
   implicitFirst2 := st.implicitFirst2
   if firstFlowRow then
     pure { positions := positions, implicitX1 := implicitSecond1, implicitX2 := implicitSecond2,
-           implicitY1 := implicitFirst1, implicitY2 := implicitFirst2, implicitSecond1 := implicitSecond1 }
+           implicitY1 := implicitFirst1, implicitY2 := implicitFirst2 }
   else
     pure { positions := positions, implicitX1 := implicitFirst1, implicitX2 := implicitFirst2,
-           implicitY1 := implicitSecond1, implicitY2 := implicitSecond2, implicitSecond1 := implicitSecond1 }
+           implicitY1 := implicitSecond1, implicitY2 := implicitSecond2 }
 
 /-! #### explicit grid -/
 
@@ -1022,8 +1016,7 @@ def addImplicitTracks (l : List TEntry) (auto : List TrackSize) (used : Nat) (be
 
 /-! #### step 3.5 -/
 
-/-- positions of the tracks along one axis; `gapInFree` tells whether the gaps were subtracted from
-the free space (rows) or not (columns). -/
+/-- positions of the tracks along one axis (`free` = the free space, gaps subtracted, floored at 0). -/
 def alignTracks (a : ContentAlign) (start free gap : Rat) (sizes : List Rat) : List Rat :=
   let n := sizes.length
   let (x0, between) : Rat × Rat :=
@@ -1105,8 +1098,8 @@ def itemRect (c : GContainer) (it : GItem) (px py areaW areaH : Rat) : Rect :=
   let (x, w) : Rat × Rat :=
     if isStretch js then (x, max childW w)
     else
-      -- `max_content_width(context, new_child)` (outer): content + margins + paddings + borders
-      let mc := lenOr0 sW + lenOr0 it.ml + lenOr0 it.mr + hpb
+      -- `max_content_width(context, new_child, outer=False)`: the content width
+      let mc := lenOr0 sW
       let diff := childW - mc
       let x := if js == .center then x + diff / 2
                else if js == .endLike || js == .right then x + diff else x
@@ -1154,16 +1147,16 @@ def layout (c : GContainer) (items : List GItem) : Except GErr Result := do
     (pl.implicitY2 - ex.nRowsAreas).toNat
   let rowFns := (trackSizes rows).map getSizingFunctions
   let colFns := (trackSizes cols).map getSizingFunctions
-  -- 3.1 (note: `implicit_second_1`, whatever the flow)
+  -- 3.1
   let colT ← resolveTracks colFns (some c.width) (contributions pl.positions items true)
-    pl.implicitSecond1 true c.colGap (isStretchContent c.justifyContent)
+    pl.implicitX1 true c.colGap (isStretchContent c.justifyContent)
   let colSizes := colT.map (·.base)
   -- 3.2
   let rowT ← resolveTracks rowFns c.height (contributions pl.positions items false)
     pl.implicitY1 false c.rowGap (isStretchContent c.alignContent)
   let rowSizes := rowT.map (·.base)
   -- 3.5
-  let freeW := max 0 (c.width - sumR colSizes)
+  let freeW := max 0 (c.width - sumR colSizes - ((colSizes.length : Int) - 1 : Int) * c.colGap)
   let colPos := alignTracks c.justifyContent 0 freeW c.colGap colSizes
   let freeH : Rat := match c.height with
     | none => 0
